@@ -21,7 +21,7 @@ func init() {
 			"R-C17-2 the const gauges registered in NewMetrics are exactly the names handled by collectMetrics (default arm panics); " +
 			"R-C17-3 mirroring: each series/JSON field takes its value and labels from the like-named field of the like-typed option of the same RA, in the documented unit (seconds / milliseconds), interface gauges from Advertise/Monitor/forwarding/autoconf reads; " +
 			"R-C17-4 every call through a plugin's func-typed runtime field (populated only by Prepare) is preceded on its path by a non-nil test of that field; R-C17-5 plugin fields written by Prepare and read by Apply must be synchronised (reported as known findings); " +
-			"R-C17-6 /metrics is registered only under Debug.Prometheus, /debug/pprof/* only under Debug.PProf, /_/api/interfaces unconditionally; State failures produce an error response / ScrapeError, not a panic R-C17-6 also: a ScrapeError names a metric registered with ConstGauge; R-C17-7 per-option label values are unique among the options of one RA (pairwise check in the parser and no wildcard collision, or de-duplication before emission) — four known findings; R-C17-8 no slice that is re-sliced and refilled on each loop iteration is referenced by a stored entry (scratch-buffer aliasing between rendered options).",
+			"R-C17-6 /metrics is registered only under Debug.Prometheus, /debug/pprof/* only under Debug.PProf, /_/api/interfaces unconditionally; State failures produce an error response / ScrapeError, not a panic R-C17-6 also: a ScrapeError names a metric registered with ConstGauge; R-C17-7 per-option label values are unique among the options of one RA (pairwise check in the parser and no wildcard collision, or de-duplication before emission) — four known findings; R-C17-8 no slice that is re-sliced and refilled on each loop iteration is referenced by a stored entry (scratch-buffer aliasing between rendered options); R-C17-9 Handler.interfaces indexes its output with the interface loop counter only while every iteration appends exactly one entry.",
 		Assumptions: []string{
 			"Go type checker and go/ssa construction are correct",
 			"a type switch whose default arm panics crashes the request for any unlisted type",
@@ -43,6 +43,7 @@ func runC17(c *Ctx) {
 	c17Gating(c)
 	c17ScrapeErrorMetric(c)
 	c17LabelUniqueness(c)
+	c17IndexInStep(c)
 	scratchAliasing(c, "R-C17-8", fnsInPkgs(c, "internal/crhttp", "internal/corerad"), "an entry of the API/metrics rendering is overwritten by a later option of the same RA (the JSON no longer mirrors the RA)")
 }
 
@@ -114,6 +115,20 @@ func c17Options(c *Ctx) {
 				if bo, ok := in.(*ssa.BinOp); ok && bo.Op == token.EQL {
 					if k, ok := bo.Y.(*ssa.Const); ok && k.Value != nil && k.Value.Kind() == constant.Int {
 						handled[k.Int64()] = true
+					}
+				}
+			}
+		}
+		// … or looked up in a constant package-level map (a missing key panics / is reported like the default arm)
+		for _, b := range pr.Blocks {
+			for _, in := range b.Instrs {
+				lk, ok := in.(*ssa.Lookup)
+				if !ok {
+					continue
+				}
+				if tbl, okT := c.globalConstMap(c.XO.Of(lk.X)); okT {
+					for k := range tbl {
+						handled[k] = true
 					}
 				}
 			}
@@ -1083,4 +1098,55 @@ func c17LabelUniqueness(c *Ctx) {
 			"label values identify one option: no accepted configuration produces two "+k.kind+" options with the same labels in one RA",
 			"a duplicate sample makes every /metrics scrape of the interface fail with HTTP 500 ("+k.series+")")
 	}
+}
+
+
+// c17IndexInStep (R-C17-9): Handler.interfaces fills in the entry it appended
+// for the current interface by indexing the output slice with the counter of
+// the loop over the configured interfaces. That is only in range (and only the
+// right entry) while every iteration so far appended exactly one entry: an
+// iteration that skips the append (a filter, an early continue) makes a later
+// index run past the end and the request panics. Vacuous when the function
+// does not index the output with the loop counter.
+func c17IndexInStep(c *Ctx) {
+	h := c.needMethod("R-C17-9", "internal/crhttp", "Handler", "interfaces")
+	if h == nil {
+		return
+	}
+	fn := c.fname(h)
+	isOut := func(t types.Type) bool { return strings.HasSuffix(typeStr(t), "[]crhttp.interfaceBody") || strings.HasSuffix(typeStr(t), "interfaceBody") && strings.HasPrefix(typeStr(t), "[]") }
+	indexed := false
+	for _, b := range h.Blocks {
+		for _, in := range b.Instrs {
+			if ia, ok := in.(*ssa.IndexAddr); ok && isOut(ia.X.Type()) {
+				if _, isConst := ia.Index.(*ssa.Const); !isConst {
+					indexed = true
+				}
+			}
+		}
+	}
+	if !indexed {
+		c.R.Check(true, "R-C17-9", fn+":index-in-step", fn, c.pos(h.Pos()), "the output slice is not indexed with a loop counter", "n/a", "")
+		return
+	}
+	n, bad := 0, ""
+	for _, p := range c.pathsO("R-C17-9", h, an.PathOpts{EmitCut: true}) {
+		if !p.Cut {
+			continue
+		}
+		apps := 0
+		p.Instrs(func(in ssa.Instruction) {
+			if call, ok := in.(*ssa.Call); ok {
+				if bi, ok := call.Call.Value.(*ssa.Builtin); ok && bi.Name() == "append" && isOut(call.Type()) {
+					apps++
+				}
+			}
+		})
+		n++
+		if apps != 1 {
+			bad = fmt.Sprintf("an iteration appends %d entries (%s)", apps, atomsString(p))
+		}
+	}
+	c.R.Check(n >= 1 && bad == "", "R-C17-9", fn+":index-in-step", fn, c.pos(h.Pos()), fmt.Sprintf("%d iteration path(s); %s", n, bad),
+		"the output is indexed with the counter of the loop over the interfaces, so every iteration appends exactly one entry", "an iteration that appends nothing shifts the entries: a later index is out of range and the API request panics (or fills in the wrong interface)")
 }
